@@ -7,7 +7,7 @@
  * Line protocol (stdin), one result line per input line:
  *   S <cfgspec> <policy> <items>      scenario: items as in `conn play` (>hex,<hex,g>n,g<n,c = close request side first)
  *       -> "n=<allocations in the fault-free run> runs=<k tried> bad=[...]"  after sweeping k = 1..n (or stride, see E)
- *   E <max-k> <stride>                limits for the following sweeps (0 0 = every k)
+ *   E <max-k> <stride> [<start-k>]    limits for the following sweeps (0 0 = every k); start-k applies to the next S only
  *   O <fn> <k>                        ownership trace of one library function with the k-th allocation failing (k=0: none)
  *       -> "rc=<..> trace=A0 A1 F1 ..."  (ids number the allocations of this call in order; R<old>><new> = realloc moved)
  * Before each single run the line "RUN <scenario#> <k>" is written to stderr and flushed, so that a sanitizer abort can be
@@ -182,12 +182,12 @@ static void own(const char *fn, long k) {
 
 int main(void) {
     char *line = NULL; size_t cap = 0; ssize_t n;
-    long maxk = 0, stride = 0; int scen = 0;
+    long maxk = 0, stride = 0, startk = 1; int scen = 0;
     while ((n = getline(&line, &cap, stdin)) > 0) {
         while (n > 0 && (line[n - 1] == '\n' || line[n - 1] == '\r')) line[--n] = 0;
         char *t[8]; int nt = 0; char *save = NULL;
         for (char *x = strtok_r(line, " ", &save); x && nt < 8; x = strtok_r(NULL, " ", &save)) t[nt++] = x;
-        if (nt == 3 && !strcmp(t[0], "E")) { maxk = atol(t[1]); stride = atol(t[2]); printf("ok\n"); fflush(stdout); continue; }
+        if ((nt == 3 || nt == 4) && !strcmp(t[0], "E")) { maxk = atol(t[1]); stride = atol(t[2]); startk = nt == 4 ? atol(t[3]) : 1; if (startk < 1) startk = 1; printf("ok\n"); fflush(stdout); continue; }
         if (nt == 3 && !strcmp(t[0], "O")) { own(t[1], atol(t[2])); printf("\n"); fflush(stdout); continue; }
         if (nt == 4 && !strcmp(t[0], "S")) {
             scen++;
@@ -201,7 +201,7 @@ int main(void) {
             if (b0 || leak0) bl += snprintf(bad + bl, sizeof bad - bl, "0:%s ", leak0 ? "leak" : "contract");
             unsigned long runs = 0, fired = 0;
             unsigned long lim = (maxk > 0 && (unsigned long) maxk < total) ? (unsigned long) maxk : total;
-            for (unsigned long k = 1; k <= lim; k += (stride > 0 && k > 64 ? stride : 1)) {
+            for (unsigned long k = (unsigned long) startk; k <= lim; k += (stride > 0 && k > 64 ? stride : 1)) {
                 fprintf(stderr, "RUN %d %lu\n", scen, k); fflush(stderr);
                 g_countdown = (long) k; g_count = 0; g_failed = 0;
                 int b = run_once(t[1], t[2], t[3]);
@@ -210,6 +210,7 @@ int main(void) {
                 int leak = __lsan_do_recoverable_leak_check();
                 if ((b || leak) && bl + 32 < sizeof bad) bl += snprintf(bad + bl, sizeof bad - bl, "%lu:%s ", k, leak ? "leak" : (b == 3 ? "error-not-sticky" : "contract"));
             }
+            startk = 1;
             printf(" runs=%lu fired=%lu bad=[%s]\n", runs, fired, bad); fflush(stdout);
             continue;
         }
